@@ -27,6 +27,8 @@ func (c *fsClient) BeforeInline(x *Exec, st *State, fr *Frame, site ssa.CallInst
 	case "(*Stack).compactRange":
 		g.setFlag("compactFirst", args[1])
 		g.setFlag("compactLast", args[2])
+		g.setFlag("mergeStarted", nil)
+		g.setFlag("compactCommitted", nil)
 	case "(*Stack).reload":
 		g.setFlag("reloaded", tTrue)
 	case "(*Stack).reloadOnce":
@@ -69,6 +71,13 @@ func (c *fsClient) AfterInline(x *Exec, st *State, fr *Frame, site ssa.CallInstr
 	case "(*Stack).compactRange":
 		g.setFlag("compactFirst", nil)
 		g.setFlag("compactLast", nil)
+		if val != nil && val.Op == "tuple" && val.Args[0] == tTrue && g.isSet("mergeStarted") {
+			if g.isSet("compactCommitted") {
+				c.okay("COMPACT-PUBLISHES", c.entry+" / a finished merge is published", "compaction reports success only after renaming the new list into place")
+			} else {
+				c.violate(st, "COMPACT-PUBLISHES", c.entry+" / a finished merge is published", site.Pos(), "compaction reports success after merging (e.g. everything expired or deleted) without replacing the list: the compacted tables stay visible")
+			}
+		}
 	}
 }
 
